@@ -519,7 +519,30 @@ func init() {
 		"strconv.ParseFloat": func(e *Engine, f *ssa.Function, a []Val) Val {
 			s, ok := a[0].(Str)
 			if !ok {
-				e.unsupported("strconv.ParseFloat on symbolic text")
+				// symbolic text: only plain decimal literals (digits with at most one dot, a digit first,
+				// fewer than 300 characters) are modelled; their value is an opaque function of the text
+				bs := bytesOf(a[0])
+				if len(bs) == 0 || len(bs) >= 300 {
+					e.unsupported("strconv.ParseFloat on symbolic text of this length")
+				}
+				shape := bsc(true)
+				dots := 0
+				for i, b := range bs {
+					isDigit := e.andSc(e.intOp(token.GEQ, tinfo{w: 8}, tinfo{w: 8}, b, u8('0')), e.intOp(token.LEQ, tinfo{w: 8}, tinfo{w: 8}, b, u8('9')))
+					if i == 0 {
+						shape = e.andSc(shape, isDigit)
+						continue
+					}
+					if e.decide(e.byteEq(b, u8('.'))) {
+						dots++
+						continue
+					}
+					shape = e.andSc(shape, isDigit)
+				}
+				if dots > 1 || !e.decide(shape) {
+					e.unsupported("strconv.ParseFloat on symbolic text that is not a plain decimal literal")
+				}
+				return Tu{e.fresh("parsedfloat", 64), If{}}
 			}
 			v, err := strconv.ParseFloat(string(s), e.argInt(a[1], "bitSize"))
 			if err != nil {
